@@ -192,6 +192,20 @@ def _parent_attr(fn, node):
     return None
 
 
+def _store_bases(t):
+    """names of the arrays a store through expression t (subscripts, attributes, views) writes into"""
+    base = t
+    while True:
+        if isinstance(base, (ast.Subscript, ast.Attribute)):
+            base = base.value
+        elif isinstance(base, ast.Call) and isinstance(base.func, ast.Attribute) \
+                and base.func.attr in ('reshape', 'transpose', 'view', 'ravel', 'swapaxes', 'squeeze'):
+            base = base.func.value
+        else:
+            break
+    return [base.id] if isinstance(base, ast.Name) else []
+
+
 def _arm_conflict(fi, a, b):
     """a and b sit in different arms of one if statement (they never execute together)"""
     from .rules_tracer import _guards
@@ -239,6 +253,16 @@ def _reaching_names(fi, expr_nodes, upto_line):
                 and st.value.func.attr in ('append', 'extend') and isinstance(st.value.func.value, ast.Name):
             for a in st.value.args:
                 assigns.append((st.lineno, st.value.func.value.id, a))
+        elif isinstance(st, ast.Expr) and isinstance(st.value, ast.Call) and (dotted_name(st.value.func) or '') in ('numpy.copyto', 'numpy.put', 'numpy.place') \
+                and len(st.value.args) >= 2:
+            # numpy.copyto(dst_view, src): a store of src into (a view of) dst
+            for b_ in _store_bases(st.value.args[0]):
+                assigns.append((st.lineno, b_, st.value.args[1]))
+        elif isinstance(st, ast.Expr) and isinstance(st.value, ast.Call) and any(k.arg == 'out' for k in st.value.keywords):
+            o_ = [k.value for k in st.value.keywords if k.arg == 'out'][0]
+            for b_ in _store_bases(o_):
+                for a in st.value.args:
+                    assigns.append((st.lineno, b_, a))
     def value_names(e):
         """names whose *values* flow into e: a name that only occurs under .shape/.size/.ndim/.dtype, numpy.shape(..), len(..),
         numpy.zeros_like(..) / empty_like contributes its shape, not its value"""
@@ -376,6 +400,9 @@ def rule_drv_flow(ctx):
             stores = [st for st in walk_no_nested(holder.node) if isinstance(st, (ast.Assign, ast.AugAssign))
                       and any(isinstance(t, ast.Subscript) and any(isinstance(b, ast.Name) and b.id in seed_names for b in ast.walk(t.value))
                               for t in (st.targets if isinstance(st, ast.Assign) else [st.target]))]
+            stores += [st for st in walk_no_nested(holder.node) if isinstance(st, ast.Expr) and isinstance(st.value, ast.Call)
+                       and (((dotted_name(st.value.func) or '') in ('numpy.copyto', 'numpy.put') and st.value.args and set(_store_bases(st.value.args[0])) & seed_names)
+                            or any(k.arg == 'out' and set(_store_bases(k.value)) & seed_names for k in st.value.keywords))]
             direct = [n_ for n_ in seed_names if n_ in fi.params]
             if stores or (direct and holder is fi):
                 r.ok(construct='%s:seed-set@%d' % (name, c.lineno), sample='CGraph.%s: the adjoint seed is written by `%s`' % (name, norm(stores[0])[:60] if stores else direct[0]))
@@ -401,16 +428,38 @@ def _layout_of(expr_or_stmt, P='P', M='M'):
     """layout of the combined (direction, output-row) axis produced/consumed by a construct:
     'BLOCK'       index j <-> (p, m) = (j // M, j % M)   (p outer)
     'INTERLEAVED' index j <-> (p, m) = (j % P, j // P)   (m outer)
-    None: not recognised"""
+    None: not recognised.  Slice bounds are compared with p*M:(p+1)*M resp. m*P:(m+1)*P by evaluating them for several
+    integer valuations of (loop variable, M, P) - `p*M:p*M+M` and `(p+1)*M-M:...` are the same slice."""
     n = expr_or_stmt
-    txt = norm(n)
-    # slice p*M:(p+1)*M on the combined axis
+
+    def ev(e, env):
+        if isinstance(e, ast.Constant) and isinstance(e.value, int):
+            return e.value
+        if isinstance(e, ast.Name) and e.id in env:
+            return env[e.id]
+        if isinstance(e, ast.BinOp) and isinstance(e.op, (ast.Add, ast.Sub, ast.Mult)):
+            a_, b_ = ev(e.left, env), ev(e.right, env)
+            return a_ + b_ if isinstance(e.op, ast.Add) else (a_ - b_ if isinstance(e.op, ast.Sub) else a_ * b_)
+        raise KeyError(norm(e))
+
     for sub in ast.walk(n):
         if isinstance(sub, ast.Slice) and sub.lower is not None and sub.upper is not None:
-            lo, hi = norm(sub.lower).replace(' ', ''), norm(sub.upper).replace(' ', '')
-            if lo in ('p*%s' % M, '%s*p' % M) and hi in ('(p+1)*%s' % M, '%s*(p+1)' % M):
+            names = {x.id for x in ast.walk(sub) if isinstance(x, ast.Name)} - {P, M}
+            if len(names) != 1:
+                continue
+            v = names.pop()
+            block = inter = True
+            try:
+                for vv, mm, pp in ((0, 2, 3), (1, 2, 3), (2, 3, 5), (3, 4, 2), (1, 5, 7)):
+                    env = {v: vv, M: mm, P: pp}
+                    lo, hi = ev(sub.lower, env), ev(sub.upper, env)
+                    block = block and (lo, hi) == (vv * mm, (vv + 1) * mm)
+                    inter = inter and (lo, hi) == (vv * pp, (vv + 1) * pp)
+            except KeyError:
+                continue
+            if block and not inter:
                 return 'BLOCK'
-            if lo in ('m*%s' % P, '%s*m' % P) and hi in ('(m+1)*%s' % P, '%s*(m+1)' % P):
+            if inter and not block:
                 return 'INTERLEAVED'
     for c in ast.walk(n):
         if isinstance(c, ast.Call):
@@ -421,8 +470,8 @@ def _layout_of(expr_or_stmt, P='P', M='M'):
                 shp = args[-1] if args else None
                 if isinstance(shp, ast.BinOp) and isinstance(shp.op, ast.Add):
                     shp = shp.left
-                if isinstance(shp, ast.Tuple) and len(shp.elts) >= 3:
-                    names = [norm(e) for e in shp.elts[:3]]
+                if isinstance(shp, ast.Tuple) and len([e for e in shp.elts if not isinstance(e, ast.Starred)]) >= 3:
+                    names = [norm(e) for e in shp.elts if not isinstance(e, ast.Starred)][:3]
                     if names[1:] == [P, M]:
                         return 'BLOCK'
                     if names[1:] == [M, P]:
@@ -432,8 +481,11 @@ def _layout_of(expr_or_stmt, P='P', M='M'):
                     return 'BLOCK'          # each direction repeated M times in a row
                 if norm(c.args[1]) == P:
                     return 'INTERLEAVED'
-            if last == 'tile' and len(c.args) >= 2 and isinstance(c.args[1], ast.Tuple):
-                reps = [norm(e) for e in c.args[1].elts]
+            if last == 'tile' and len(c.args) >= 2 and isinstance(c.args[1], (ast.Tuple, ast.BinOp)):
+                t_ = c.args[1]
+                while isinstance(t_, ast.BinOp) and isinstance(t_.op, ast.Add):
+                    t_ = t_.left
+                reps = [norm(e) for e in t_.elts] if isinstance(t_, ast.Tuple) else []
                 if M in reps and P not in reps:
                     return 'INTERLEAVED'    # whole block of P directions repeated M times: j -> p = j % P
                 if P in reps and M not in reps:
@@ -446,30 +498,78 @@ def rule_drv_layout(ctx):
                                    'the adjoint seed and the final reshape agree on the layout of the combined (direction, output row) axis')
     m = ctx.model
     fi = m.func(TRACER, 'CGraph.jacobian')
-    # the UTPM branch
+    xpar = fi.value_params()[0] if fi.value_params() else 'x'
+    # boolean locals that stand for the UTPM test (`is_utpm = isinstance(x, algopy.UTPM)`)
+    alias = {}
+    for st in walk_no_nested(fi.node):
+        if isinstance(st, ast.Assign) and len(st.targets) == 1 and isinstance(st.targets[0], ast.Name) and isinstance(st.value, ast.Call) \
+                and isinstance(st.value.func, ast.Name) and st.value.func.id == 'isinstance':
+            alias[st.targets[0].id] = st.value
+
+    def is_utpm_test(t):
+        if isinstance(t, ast.Name) and t.id in alias:
+            t = alias[t.id]
+        return isinstance(t, ast.Call) and isinstance(t.func, ast.Name) and t.func.id == 'isinstance' and len(t.args) == 2 \
+            and norm(t.args[0]) == xpar and norm(t.args[1]).split('.')[-1] == 'UTPM'
+
     br = None
     for n in walk_no_nested(fi.node):
-        if isinstance(n, ast.If) and 'isinstance(x, algopy.UTPM)' in norm(n.test):
+        if isinstance(n, ast.If) and is_utpm_test(n.test) and any(isinstance(x_, ast.Call) and isinstance(x_.func, ast.Attribute) and x_.func.attr == 'pullback'
+                                                                  for b_ in n.body for x_ in ast.walk(b_)):
             br = n.body
     if br is None:
         r.unknown(fi.site(), 'UTPM branch of CGraph.jacobian not found')
         return r
+    holder = ast.Module(body=br, type_ignores=[])
+    pf = [c for c in ast.walk(holder) if isinstance(c, ast.Call) and isinstance(c.func, ast.Attribute) and c.func.attr == 'pushforward']
+    pb = [c for c in ast.walk(holder) if isinstance(c, ast.Call) and isinstance(c.func, ast.Attribute) and c.func.attr == 'pullback']
+    if not pf or not pb:
+        r.unknown(fi.site(), 'forward evaluation / reverse sweep not found in the UTPM branch')
+        return r
+    fwd_names = _reaching_names(fi, list(pf[0].args), pf[0].lineno) - set(fi.params)
+    bar_names = _reaching_names(fi, list(pb[0].args), pb[0].lineno) - set(fi.params) - fwd_names
+    # names of the number of directions / outputs: P from `D, P = x.data.shape[:2]`, M from `<dependent>.size`
+    Pn, Mn = 'P', 'M'
+    for st in ast.walk(holder):
+        if isinstance(st, ast.Assign) and len(st.targets) == 1:
+            t, v = st.targets[0], st.value
+            if isinstance(t, ast.Tuple) and len(t.elts) == 2 and norm(v).endswith('.data.shape[:2]') and isinstance(t.elts[1], ast.Name):
+                Pn = t.elts[1].id
+            if isinstance(t, ast.Name) and 'dependentFunctionList' in norm(v) and norm(v).endswith('.size'):
+                Mn = t.id
+    for st in walk_no_nested(fi.node):
+        if isinstance(st, ast.Assign) and len(st.targets) == 1 and isinstance(st.targets[0], ast.Name) and 'dependentFunctionList' in norm(st.value) \
+                and norm(st.value).endswith('.size'):
+            Mn = st.targets[0].id
     parts = {}
-    for st in br:
-        for sub in [st] + list(ast.walk(st)):
-            if not isinstance(sub, (ast.Assign, ast.Return)):
-                continue
-            txt = norm(sub)
-            tgt = norm(sub.targets[0]) if isinstance(sub, ast.Assign) else 'return'
-            lay = _layout_of(sub)
-            if lay is None:
-                continue
-            if tgt.startswith('tmp'):
-                parts.setdefault('input replication', []).append((lay, sub))
-            elif tgt.startswith('ybar'):
-                parts.setdefault('adjoint seed', []).append((lay, sub))
-            elif tgt == 'return':
-                parts.setdefault('result reshape', []).append((lay, sub))
+    for st in ast.walk(holder):
+        if not isinstance(st, (ast.Assign, ast.AugAssign, ast.Expr, ast.Return)):
+            continue
+        if isinstance(st, ast.Return):
+            lay = _layout_of(st, Pn, Mn)
+            if lay:
+                parts.setdefault('result reshape', []).append((lay, st))
+            continue
+        bases = set()
+        if isinstance(st, (ast.Assign, ast.AugAssign)):
+            for t in (st.targets if isinstance(st, ast.Assign) else [st.target]):
+                bases |= set(_store_bases(t)) if isinstance(t, (ast.Subscript, ast.Attribute)) else ({t.id} if isinstance(t, ast.Name) else set())
+        elif isinstance(st.value, ast.Call):
+            c = st.value
+            if (dotted_name(c.func) or '') in ('numpy.copyto', 'numpy.put') and c.args:
+                bases |= set(_store_bases(c.args[0]))
+            for k in c.keywords:
+                if k.arg == 'out':
+                    bases |= set(_store_bases(k.value))
+        if not bases:
+            continue
+        lay = _layout_of(st, Pn, Mn)
+        if lay is None:
+            continue
+        if bases & bar_names:
+            parts.setdefault('adjoint seed', []).append((lay, st))
+        elif bases & fwd_names:
+            parts.setdefault('input replication', []).append((lay, st))
     for k in ('input replication', 'adjoint seed', 'result reshape'):
         if k not in parts:
             r.unknown(fi.site(), 'layout of the %s not recognised' % k)
@@ -669,7 +769,10 @@ def rule_rec_same(ctx):
     creates = [c for c in walk_no_nested(fpf.node) if isinstance(c, ast.Call) and isinstance(c.func, ast.Attribute) and c.func.attr == 'create']
     for c in creates:
         txt = [norm(a) for a in c.args]
-        if txt == ['out', 'Fargs', 'Fkwargs', 'func'] and not rebound:
+        # the first argument is the value the operation returned: a local assigned from `func(*.., **Fkwargs)`
+        res_names = {st.targets[0].id for st in walk_no_nested(fpf.node) if isinstance(st, ast.Assign) and len(st.targets) == 1
+                     and isinstance(st.targets[0], ast.Name) and isinstance(st.value, ast.Call) and isinstance(st.value.func, ast.Name) and st.value.func.id == 'func'}
+        if len(txt) == 4 and txt[0] in res_names and txt[1:] == ['Fargs', 'Fkwargs', 'func'] and not rebound:
             r.ok(construct='create-args', nontrivial=True, sample='node created from the same objects that were called: `%s`' % norm(c))
         else:
             r.bad(Finding('R-rec-same', _f(fpf), 'create-args', 'the node is not created from (out, Fargs, Fkwargs, func) as used for the '
@@ -825,6 +928,9 @@ OUTPUT_PARAMS = {
     'increment': {'k'},     # exact_interpolation.increment(i, k): documented in-place multi-index increment helper
     'workaround_strides_function': {'x'},   # applies fun=operator.iXXX to x by design
 }
+# the same designated outputs by position among the value parameters (robust against renaming private parameters)
+OUTPUT_POSITIONS = {'_itruediv': [0], '_cholesky': [1], '_eigh': [0, 1], '_eigh1': [0, 1], 'lift_Q': [0],
+                    '_taylor_polynomials_of_ode_solutions': [4], '_iouter': [2], 'vdot': [2], 'increment': [1], 'workaround_strides_function': [0]}
 # kernels that are called directly by users/tests and therefore count as entry points (confirmed on today's tree)
 KERNEL_ENTRY = {'_broadcast_arrays', '_mul', '_minimum', '_maximum', '_amul', '_itruediv', '_truediv', '_reciprocal', '_floordiv', '_pow_real',
                 '_max', '_argmax', '_absolute', '_negative', '_square', '_sqrt', '_exp', '_expm1', '_logit', '_expit', '_sign', '_botched_clip',
@@ -878,6 +984,9 @@ def rule_arg_ro(ctx):
     for fi in eps:
         sm = eff.sums[fi]
         outs = set(OUTPUT_PARAMS['*']) | OUTPUT_PARAMS.get(fi.name, set())
+        # private functions may rename their parameters: designated outputs are also known by position
+        vp_ = fi.value_params()
+        outs |= {vp_[i] for i in OUTPUT_POSITIONS.get(fi.name, ()) if i < len(vp_)}
         params = [p for p in fi.params if not (p == 'cls' and fi.kind == 'classmethod')]
         for p in params:
             if p in outs:
